@@ -8,6 +8,8 @@ agree at every position; a twin object fed the same sequence agrees call by call
 The same oracle on two more kinds of history: construction histories (objects of the same class built with OTHER parameters
 before the object under test: a default shared between instances shows only there) and streams of throw-away matrices (no
 matrix outlives its call: state keyed by something recyclable such as id(dm) collides only there).
+A fourth kind of history mixes calls that use the OPTIONAL per-call arguments of the entry point (SIMUS.evaluate(dm, b=...);
+discovered from the signatures) with plain calls: the plain probe before and after them must give a fresh object's output.
 Every run (the sequence, the twin, each fresh reference) happens in its OWN process forked from a worker that has only
 imported the library and never called it, so state kept at module or class level (a memo dict, a process-wide random
 generator) cannot leak into the reference outputs.
@@ -71,7 +73,16 @@ RULE = (
     "maker, a decorated class - is fed 100-300 small matrices of different content (fixed shape and labels 60%, varying otherwise; "
     "0-10% out of domain) none of which outlives its call (del / del + gc.collect() / built inline in the call / name bound again), "
     "a probe kept by the caller at 3-5 positions; every output is compared with a fresh object's (own process) for that content.  "
-    "Non-trivial: >= 2 successful calls on >= 2 different matrices and the probe at >= 2 positions (ctor: the last call accepted and "
+    "PER-CALL ARGUMENTS (kind hist with `kws`, >= 16 quick per class): for every class whose evaluate / transform takes OPTIONAL "
+    "arguments besides the matrix - found by inspecting the signatures of one object of every class of the specs; SIMUS.evaluate(dm, "
+    "b=...) today - histories of 3-7 calls in which the first such call (never the last; 60% on another accepted matrix with as many "
+    "criteria as the probe) and 40% of the others pass them: one number per criterion taken from the criterion's data, the same with "
+    "None entries, one entry too few / too many (the call raises), a single number, the declared default given explicitly; as list / "
+    "tuple / ndarray; the other calls and EVERY probe are plain; the probe sits at position 0 (70%), right after the first such call "
+    "and at the end; a call with arguments is compared with a fresh object (own process) called the same way, a plain one with a "
+    "fresh object's plain call.  "
+    "Non-trivial: >= 2 successful calls on >= 2 different matrices and the probe at >= 2 positions (per-call arguments: also the probe "
+    "accepted after the first call that uses them and an accepted plain call of another matrix; ctor: the last call accepted and "
     ">= 1 other object in between; stream: >= 50 accepted calls, >= 25 different outputs); distinct by case hash."
 )
 ASSUMPTIONS = [
@@ -1051,11 +1062,12 @@ def summary(x):
     return {"t": type(x).__name__}
 
 
-def call(obj, op, arg):
-    """one call: ('ok', digest, summary) | ('err', exception class name, message)"""
+def call(obj, op, arg, kw=None):
+    """one call: ('ok', digest, summary) | ('err', exception class name, message); kw: per-call arguments (see _call_kwargs)"""
+    extra = _call_kwargs(obj, op, kw)
     with M.quiet():
         try:
-            out = getattr(obj, op)(arg)
+            out = getattr(obj, op)(arg, **extra)
         except Exception as e:
             return {"err": type(e).__name__, "msg": str(e)[:160]}
         return {"ok": digest(out), "sum": C.jsonable(summary(out))}
@@ -1178,27 +1190,38 @@ def in_child(fn, *args):
     return res["ok"]
 
 
-def fresh_output(spec, mc):
-    """what a new object in a new process returns for one matrix"""
+def fresh_output(spec, mc, kw=None):
+    """what a new object in a new process returns for one matrix [called with the per-call arguments kw]"""
     obj, op = build(spec)
-    return call(obj, op, mk_input(mc))
+    return call(obj, op, mk_input(mc), kw)
 
 
-def run_sequence(spec, pool, seq, inputs=None, track_state=True):
-    """one new object fed pool[i] for i in seq; (outputs, state changes per call)"""
+def run_sequence(spec, pool, seq, inputs=None, track_state=True, kws=None):
+    """one new object fed pool[i] for i in seq [call k with the per-call arguments kws[k]]; (outputs, state changes per call)"""
     if inputs is True:  # one DecisionMatrix object per pool member, handed to every call that uses that member
         inputs = {i: mk_input(pool[i]) for i in set(seq)}
     obj, op = build(spec)
     outs, changes = [], []
     fp = state_fp(obj) if track_state else None
-    for i in seq:
+    for k, i in enumerate(seq):
         arg = inputs[i] if inputs is not None else mk_input(pool[i])
-        outs.append(call(obj, op, arg))
+        outs.append(call(obj, op, arg, kws[k] if kws else None))
         if track_state:
             fp2 = state_fp(obj)
             changes.append(_fp_changes(fp, fp2))
             fp = fp2
     return outs, changes
+
+
+def final_kws(kws, positions):
+    """the per-call arguments along final_sequence(hist, ...): the history's own, None (the plain call) for every probe"""
+    out = []
+    for i in range(len(kws) + 1):
+        if i in positions:
+            out.append(None)
+        if i < len(kws):
+            out.append(kws[i])
+    return out
 
 
 def final_sequence(hist, probe, positions):
@@ -1210,6 +1233,195 @@ def final_sequence(hist, probe, positions):
         if i < len(hist):
             seq.append(hist[i])
     return seq, at
+
+
+# ----------------------------------------------------------------------------- per-call arguments of the public entry point
+# "the same object on the same matrix gives identical output no matter which other calls it has processed before": some entry
+# points take OPTIONAL, documented arguments besides the matrix (SIMUS.evaluate(dm, b=[...]) is the one in the library today).
+# A history mixes calls that use them - valid values, values with holes, values that make the call raise - with plain calls;
+# what is given to one call must not stick to the object.  The classes are found by inspecting the signatures of
+# evaluate / transform of one object of every class the specs can build (and of every method class of the library, for the log).
+
+KW_HOWS = ["vec", "vec-none", "short", "long", "scalar", "default"]
+_KW_FOUND = None
+
+
+def _user_spec_of(rng, cls):
+    while True:
+        s = random_user_spec(rng)
+        if s["cls"] == cls:
+            return s
+
+
+def _pipe_spec_of(rng, op):
+    s = random_pipe_spec(rng)
+    s["op"] = op
+    return s
+
+
+def _kw_representatives():
+    """[label, maker of a spec] - one for every class (and entry point) the specs of this module can build"""
+    reps = [[n, (lambda rng, n=n: {"k": "agg", "spec": M.random_spec(rng, [n])})] for n in AGG_NAMES]
+    reps += [[c, (lambda rng, c=c: random_tr_spec(rng, c))] for c in TR]
+    reps += [[c, (lambda rng, c=c: _user_spec_of(rng, c))] for c in ("UserAgg", "PlainAgg", "UserScale", "PlainTrans")]
+    reps += [["pipeline.evaluate", lambda rng: _pipe_spec_of(rng, "evaluate")], ["pipeline.transform", lambda rng: _pipe_spec_of(rng, "transform")],
+             ["RankInvariantChecker", random_ric_spec]]
+    return reps
+
+
+def _extra_params(fn):
+    """the OPTIONAL arguments a (not bound) evaluate / transform takes besides self and the matrix: [{name, default}]"""
+    import inspect
+
+    try:
+        ps = list(inspect.signature(fn).parameters.values())
+    except (TypeError, ValueError):
+        return []
+    return [{"name": p.name, "default": _repr(p.default)} for p in ps[2:]
+            if p.kind in (p.POSITIONAL_OR_KEYWORD, p.KEYWORD_ONLY) and p.default is not inspect.Parameter.empty]
+
+
+def _discover_call_args(specs):
+    """(run in a child process) the per-call arguments of one object per spec, and of every method class of the library"""
+    preload()
+    per_spec = []
+    for spec in specs:
+        obj, op = build(spec)
+        per_spec.append({"cls": type(obj).__module__ + "." + type(obj).__qualname__, "op": op, "params": _extra_params(getattr(type(obj), op))})
+    from skcriteria.core.methods import SKCMethodABC
+
+    lib, todo, seen = [], [SKCMethodABC], set()
+    while todo:
+        c = todo.pop()
+        for sub in c.__subclasses__():
+            if sub not in seen:
+                seen.add(sub)
+                todo.append(sub)
+    for c in sorted(seen, key=lambda c: (c.__module__, c.__qualname__)):
+        if not (c.__module__ or "").startswith("skcriteria"):
+            continue
+        for op in ("evaluate", "transform"):
+            ps = _extra_params(getattr(c, op)) if callable(getattr(c, op, None)) else []
+            if ps:
+                lib.append({"cls": c.__module__ + "." + c.__qualname__, "op": op, "params": ps})
+    return {"per_spec": per_spec, "library": lib}
+
+
+def call_arg_classes():
+    """[(label, spec maker, [parameter descriptions])] of the classes whose entry point takes optional per-call arguments"""
+    global _KW_FOUND
+    if _KW_FOUND is None:
+        import random
+
+        reps = _kw_representatives()
+        probe = random.Random(0)
+        found = in_child(_discover_call_args, [mk(probe) for _, mk in reps])
+        _KW_FOUND = [(label, mk, d["params"]) for (label, mk), d in zip(reps, found["per_spec"]) if d["params"]]
+        covered = {(d["cls"], d["op"]) for d in found["per_spec"] if d["params"]}
+        missed = [d for d in found["library"] if (d["cls"], d["op"]) not in covered]
+        C.log("C20 per-call arguments: " + ("; ".join(f"{label}({', '.join(p['name'] + '=' + p['default'] for p in ps)})" for label, _, ps in _KW_FOUND)
+                                            or "no entry point takes any"))
+        if missed:
+            C.log("C20 per-call arguments of classes NO spec of this module builds (not exercised): " + json.dumps(missed)[:600])
+    return _KW_FOUND
+
+
+def _kw_value(rng, how, mc):
+    """a value for a per-call argument of a call on the matrix `mc`.  Nothing is known about an argument but its name, so the
+    values are the shapes a per-criterion setting can take: one number per criterion (taken from the criterion's own data:
+    its max / min / mean, as is, halved or doubled), the same with holes (None = "choose yourself"), one entry too few / too
+    many (the call is expected to raise), a single number, and the declared default passed explicitly"""
+    mx = mc.get("matrix")
+    n = len(mx[0]) if mx else 3
+
+    def num(j):
+        col = [r[j] for r in mx if r[j] is not None] if mx and j < n else []
+        base = rng.choice([max(col), min(col), sum(col) / len(col)]) if col else rng.randint(1, 40) / 8
+        return float(base * rng.choice([1.0, 1.0, 0.5, 2.0]))
+
+    if how == "default":
+        return {"how": how}
+    if how == "scalar":
+        return {"how": how, "v": num(rng.randrange(n))}
+    if how == "short" and n < 2:
+        how = "long"
+    length = {"vec": n, "vec-none": n, "short": n - 1, "long": n + rng.randint(1, 2)}[how]
+    v = [num(j) for j in range(length)]
+    if how == "vec-none":
+        for j in rng.sample(range(n), rng.randint(1, max(1, n - 1))):
+            v[j] = None
+    return {"how": how, "v": v, "as": rng.choice(["list", "list", "ndarray", "tuple"])}
+
+
+def _call_kwargs(obj, op, kw):
+    """JSON description of the per-call arguments -> the keyword arguments of the call"""
+    if not kw:
+        return {}
+    import inspect
+
+    out = {}
+    for name, d in kw.items():
+        if d["how"] == "default":
+            p = inspect.signature(getattr(obj, op)).parameters.get(name)
+            out[name] = None if p is None or p.default is inspect.Parameter.empty else p.default
+            continue
+        v = d["v"]
+        if isinstance(v, list):
+            if d.get("as") == "ndarray":
+                v = np.array(v, dtype=object if any(x is None for x in v) else float)
+            elif d.get("as") == "tuple":
+                v = tuple(v)
+            else:
+                v = list(v)
+        out[name] = v
+    return out
+
+
+def _show_kw(kw):
+    return "(" + ", ".join(f"{k}=<declared default>" if d["how"] == "default" else f"{k}={d['v']}" for k, d in sorted((kw or {}).items())) + ")"
+
+
+def gen_kwcall_case(rng, spec, params, first_how=None):
+    """a history in which some calls use the optional per-call arguments `params` of the entry point and the others are plain;
+    the probe is always called plainly: at the start (70%), right after the first call that uses them, at the end"""
+    pool = make_pool(rng, spec, rng.randint(3, 5), ood_rate=0.2, pair_rate=0.0)
+    good = [i for i, p in enumerate(pool) if "ood" not in p and "garbage" not in p]
+    probe = rng.choice(good)
+    ncrit = len(pool[probe]["matrix"][0])
+    like = [i for i in good if i != probe and len(pool[i]["matrix"][0]) == ncrit]  # a value meant for them FITS the probe
+    others = [i for i in range(len(pool)) if i != probe] or [probe]
+    small = _is_simus(spec) or spec_family(spec) == "rank_reversal"
+    n = rng.randint(3, 5 if small else 7)
+    hist = [rng.choice(others) if rng.random() < 0.8 else probe for _ in range(n)]
+    kws = [None] * n
+    first = rng.randrange(n - 1)  # never the last one: a plain call of another matrix follows
+    if like and rng.random() < 0.6:
+        hist[first] = rng.choice(like)
+    for k in range(n):
+        if k == first or rng.random() < 0.4:
+            kw = {}
+            for p in params:
+                if k == first and not kw:
+                    how = first_how or rng.choice(KW_HOWS[:4])
+                elif rng.random() < 0.7 or not kw:
+                    how = rng.choice(KW_HOWS[:4] + KW_HOWS)
+                else:
+                    continue
+                kw[p["name"]] = _kw_value(rng, how, pool[hist[k]])
+            kws[k] = kw
+    plain = [k for k in range(n) if kws[k] is None and hist[k] != probe]
+    if not plain:
+        k = rng.choice([k for k in range(n) if k != first])
+        kws[k] = None
+        if hist[k] == probe:
+            hist[k] = rng.choice(others)
+    positions = {first + 1, n}
+    if rng.random() < 0.7:
+        positions.add(0)
+    if rng.random() < 0.4:
+        positions.add(rng.randrange(n + 1))
+    return {"kind": "hist", "spec": spec, "pool": pool, "hist": hist, "kws": kws, "probe": probe, "positions": sorted(positions),
+            "reuse_dm": rng.random() < 0.5}
 
 
 # ----------------------------------------------------------------------------- generation
@@ -1301,6 +1513,15 @@ def gen(ctx, search=False):
             c = out_of_domain(rng, spec)
             for first in range(3):
                 cases.append({"kind": "exh", "spec": spec, "pool": [a, b, c], "first": first, "maxlen": 4})
+    # calls that use the optional per-call arguments of the entry point among plain calls: every class that has any, every
+    # kind of value as the first such call of a history (spread over the list)
+    kw_classes = call_arg_classes()
+    n_kw = (60 if search else ctx.n(16, 120)) * len(kw_classes)
+    step = max(1, len(cases) // max(1, n_kw))
+    for t in range(n_kw):
+        label, mk, params = kw_classes[t % len(kw_classes)]
+        hows = KW_HOWS[:4]
+        cases.insert(min(len(cases), 3 + t * (step + 1)), gen_kwcall_case(rng, mk(rng), params, hows[(t // len(kw_classes)) % len(hows)]))
     return cases
 
 
@@ -1348,13 +1569,20 @@ def observe(case):
     with M.quiet():
         if kind == "hist":
             seq, at = final_sequence(case["hist"], case["probe"], case["positions"])
-            used = sorted(set(seq))
+            kws = final_kws(case["kws"], case["positions"]) if case.get("kws") else None
+            used = sorted({i for k, i in enumerate(seq) if not (kws and kws[k])})  # members that are called plainly
             fresh = {i: in_child(fresh_output, spec, pool[i]) for i in used}
             fresh2 = {i: in_child(fresh_output, spec, pool[i]) for i in used}
-            outs, changes = in_child(run_sequence, spec, pool, seq, True if case.get("reuse_dm") else None, True)
-            twin, _ = in_child(run_sequence, spec, pool, seq, None, False)
-            return {"seq": seq, "at": at, "outs": outs, "twin": twin, "changes": changes,
-                    "fresh": {str(i): fresh[i] for i in used}, "fresh2": {str(i): fresh2[i] for i in used}}
+            outs, changes = in_child(run_sequence, spec, pool, seq, True if case.get("reuse_dm") else None, True, kws)
+            twin, _ = in_child(run_sequence, spec, pool, seq, None, False, kws)
+            obs = {"seq": seq, "at": at, "outs": outs, "twin": twin, "changes": changes,
+                   "fresh": {str(i): fresh[i] for i in used}, "fresh2": {str(i): fresh2[i] for i in used}}
+            if kws:
+                # a call that uses per-call arguments: the reference is a fresh object (own process) called the same way
+                obs["kws"] = kws
+                obs["fresh_kw"] = {str(k): in_child(fresh_output, spec, pool[seq[k]], kws[k]) for k in range(len(seq)) if kws[k]}
+                obs["fresh_kw2"] = {str(k): in_child(fresh_output, spec, pool[seq[k]], kws[k]) for k in range(len(seq)) if kws[k]}
+            return obs
         if kind == "ctor":
             return {"ref": in_child(ctor_reference, case), "ref2": in_child(ctor_reference, case), "seq": in_child(ctor_sequence, case)}
         if kind == "stream":
@@ -1476,19 +1704,32 @@ def judge(case, obs, replies):
             prop(f"{name}: two objects built with the same parameters (and seed) disagree on the same matrix (pool member {i}, "
                  "first call of each)", fresh[i], fresh2[i])
             return out
+    kws = obs.get("kws") or [None] * len(seq)
+    fresh_kw = obs.get("fresh_kw", {})
+    for k in sorted(fresh_kw, key=int):
+        if not _same(fresh_kw[k], obs["fresh_kw2"][k]):
+            prop(f"{name}: two objects built with the same parameters (and seed) disagree on the same matrix (pool member "
+                 f"{seq[int(k)]}) called with the same per-call arguments {_show_kw(kws[int(k)])}, first call of each", fresh_kw[k],
+                 obs["fresh_kw2"][k])
+            return out
+    calls = [str(i) if not kw else f"{i}+{_show_kw(kw)}" for i, kw in zip(seq, kws)]
+    how_called = f" [calls as member+per-call arguments: {', '.join(calls)}]" if obs.get("kws") else ""
     pv = [outs[k] for k in at]
     if any(not _same(pv[0], v) for v in pv[1:]):
         k = next(k for k, v in zip(at, pv) if not _same(pv[0], v))
         prop(f"{name}: the probe (pool member {case['probe']}) returns different outputs at positions {at[0]} and {k} of the "
-             f"call sequence {seq} on one object", pv[0], outs[k])
+             f"call sequence {seq} on one object{how_called}", pv[0], outs[k])
     for k, (i, o) in enumerate(zip(seq, outs)):
-        if not _same(o, fresh[i]):
-            prop(f"{name}: call #{k} of the sequence {seq} (pool member {i}) on one object differs from what a fresh object "
-                 "built with the same parameters returns for that matrix", fresh[i], o)
+        ref = fresh_kw[str(k)] if str(k) in fresh_kw else fresh[i]
+        if not _same(o, ref):
+            prop(f"{name}: call #{k} of the sequence {seq} (pool member {i}"
+                 + (f", per-call arguments {_show_kw(kws[k])}" if kws[k] else ", plain call" if obs.get("kws") else "")
+                 + ") on one object differs from what a fresh object built with the same parameters returns for that matrix"
+                 + (" called the same way" if obs.get("kws") else "") + how_called, ref, o)
             break
     for k, (o, t) in enumerate(zip(outs, obs["twin"])):
         if not _same(o, t):
-            prop(f"{name}: two objects with the same parameters fed the same sequence {seq} disagree at call #{k}", o, t)
+            prop(f"{name}: two objects with the same parameters fed the same sequence {seq} disagree at call #{k}{how_called}", o, t)
             break
     for k, ch in enumerate(obs["changes"]):
         if ch:
@@ -1572,6 +1813,14 @@ def nontrivial(case, obs):
     if case["kind"] != "hist":
         return True
     ok = {i for i, o in zip(obs["seq"], obs["outs"]) if "ok" in o}
+    if case.get("kws"):
+        # a call with per-call arguments, then the probe accepted; a plain accepted call of another matrix somewhere
+        kws, seq, outs = obs["kws"], obs["seq"], obs["outs"]
+        first = next((k for k, kw in enumerate(kws) if kw), len(seq))
+        if not any(k > first and "ok" in outs[k] for k in obs["at"]):
+            return False
+        if not any(not kws[k] and seq[k] != case["probe"] and "ok" in outs[k] for k in range(len(seq))):
+            return False
     return len(ok) >= 2 and len(obs["at"]) >= 2
 
 
@@ -1615,6 +1864,19 @@ def tags(case, obs):
         if _draws(case["spec"]):
             n_ok = sum(1 for k in obs["at"] if "ok" in obs["outs"][k])
             t.append("seeded-and-drawing:" + spec_name(case["spec"]).split("(")[0] + ":probe-ok-at-%s-positions" % ("3+" if n_ok >= 3 else n_ok))
+        if case.get("kws"):
+            cls = spec_name(case["spec"]).split("(")[0]
+            for k, kw in enumerate(obs["kws"]):
+                for a, d in (kw or {}).items():
+                    t.append(f"per-call-argument:{cls}.{a}:{d['how']}:" + ("accepted" if "ok" in obs["outs"][k] else "raised"))
+            first = next(k for k, kw in enumerate(obs["kws"]) if kw)
+            later = [k for k in obs["at"] if k > first]
+            t.append("per-call-argument:then-plain-probe-" + ("accepted" if any("ok" in obs["outs"][k] for k in later) else "NOT-accepted"))
+            ncrit = len(case["pool"][case["probe"]]["matrix"][0])
+            fits = any(kw and "ok" in obs["outs"][k] and k < obs["at"][-1] and any(isinstance(d.get("v"), list) and len(d["v"]) == ncrit for d in kw.values())
+                       for k, kw in enumerate(obs["kws"]) if obs["seq"][k] != case["probe"])
+            if fits:
+                t.append("per-call-argument:accepted-on-another-matrix-and-fits-the-probe")
         hows = [p["pair"] for p in case["pool"] if isinstance(p, dict) and str(p.get("pair", "")).startswith("b:")]
         if hows:
             pi = [i for i, p in enumerate(case["pool"]) if "pair" in p]
